@@ -372,7 +372,8 @@ def expr(case, res):
         es.append(f"(mk_entry {zlit(st['trials'])} {zlit(ln)} {'KArray' if st['kind'] == 'array' else 'KGen'} {zlist(d)} "
                   f"{'true' if cyc else 'false'})")
     choices = [e[1] for e in res['notes'] if e[0] == 'added'] if case['pol'] == 'random' else []
-    perms = qc.blocked_perms(case.get('seed', 0), len(case['stims'])) if case['pol'] == 'blocked_random' else []
+    nblocks = max(120, 2 * sum(st['trials'] for st in case['stims']) // len(case['stims']) + 20)
+    perms = qc.blocked_perms(case.get('seed', 0), len(case['stims']), nblocks) if case['pol'] == 'blocked_random' else []
     steps = [f"SQ (Resume (Some {zlit(case['j'])}))"]
     for s in case['steps']:
         if s[0] == 'pop':
